@@ -1,0 +1,67 @@
+//go:build verif
+
+package jrpc2
+
+import (
+	"sort"
+
+	"github.com/creachadair/jrpc2/internal/verifhook"
+)
+
+// VerifSetHook installs f to be called at each scheduling point of the
+// library (see internal/verifhook). It is only available with the "verif"
+// build tag and exists for the verification harness.
+func VerifSetHook(f func(site string)) { verifhook.Set(f) }
+
+// VerifServerSnapshot is a read-only snapshot of server bookkeeping.
+type VerifServerSnapshot struct {
+	Used     []string // reserved request IDs, sorted
+	Calls    []string // outstanding callback IDs, sorted
+	QueueLen int      // inbound batches awaiting dispatch
+	Running  bool     // whether the server has a channel
+}
+
+// VerifSnapshot returns a snapshot of the bookkeeping of s.
+func (s *Server) VerifSnapshot() VerifServerSnapshot {
+	s.mu.Lock()
+	defer s.mu.Unlock()
+	var out VerifServerSnapshot
+	for id := range s.used {
+		out.Used = append(out.Used, id)
+	}
+	for id := range s.call {
+		out.Calls = append(out.Calls, id)
+	}
+	sort.Strings(out.Used)
+	sort.Strings(out.Calls)
+	out.QueueLen = s.inq.Len()
+	out.Running = s.ch != nil
+	return out
+}
+
+// VerifTryLock reports whether the server mutex could be acquired (and
+// releases it again if so).
+func (s *Server) VerifTryLock() bool {
+	if s.mu.TryLock() {
+		s.mu.Unlock()
+		return true
+	}
+	return false
+}
+
+// VerifPending reports the number of requests pending in c.
+func (c *Client) VerifPending() int {
+	c.mu.Lock()
+	defer c.mu.Unlock()
+	return len(c.pending)
+}
+
+// VerifTryLock reports whether the client mutex could be acquired (and
+// releases it again if so).
+func (c *Client) VerifTryLock() bool {
+	if c.mu.TryLock() {
+		c.mu.Unlock()
+		return true
+	}
+	return false
+}
